@@ -945,3 +945,7 @@ V("c04-insert-values-batched", A, "C04", "C04.l",
             return batches
         return transforms.merge(expression)
 """))
+V("c05-neutral-single-batch-after-combine", N, "C05", None,
+  ("cursor", "            return tslice.to_pylist()\n", """            batches = tslice.combine_chunks().to_batches()
+            return batches[0].to_pylist() if batches else []
+"""))
